@@ -44,6 +44,7 @@ partial def loop {σ : Type} (h : IO.FS.Stream) (out : IO.FS.Stream) (st : σ)
     return ()
   let (st', resp) := step st (words line)
   out.putStrLn resp
+  out.flush
   loop h out st' step
 
 end Driver
